@@ -491,6 +491,7 @@ class Obligation:
                 self.inconclusive.append('replay machinery failed for %s: %s' % (label, traceback.format_exc(limit=4)))
                 return False
             if not reproduced:
+                self.seen_cex.discard(key)      # another path / model may still reproduce (the replay budget bounds the attempts)
                 self.chk.modelgaps.append({'obligation': self.name, 'assertion': label, 'cex': desc})
                 self.inconclusive.append('MODEL-GAP: solver counterexample for %s did not reproduce on the real build' % label)
                 return False
